@@ -383,7 +383,11 @@ func c02LeafOK(a c02Abs, o c02Opts, now time.Time, oidIdx func(string) int) bool
 }
 
 // admissible: the submitted chain is a valid linear path ending in, or one step below, the trusted pool.
-func (k *c02Case) admissible() bool {
+// strict additionally asks that an issuing root one step above is not itself one of the submitted
+// certificates (premise of Admissible.belowPool; an issuance cycle otherwise).
+func (k *c02Case) admissible() bool { return k.admissibleMode(false) }
+
+func (k *c02Case) admissibleMode(strict bool) bool {
 	n := len(k.chain)
 	if n == 0 {
 		return false
@@ -407,6 +411,15 @@ func (k *c02Case) admissible() bool {
 	}
 	if inner(n - 1) {
 		for _, r := range k.roots {
+			inChain := false
+			for _, c := range k.chain {
+				if c == r {
+					inChain = true
+				}
+			}
+			if strict && inChain {
+				continue
+			}
 			if k.link(last, r, true) {
 				return true
 			}
@@ -425,10 +438,8 @@ func (k *c02Case) sideConditions() string {
 		}
 		seen[c] = true
 	}
-	for _, c := range k.chain[:n-1] {
-		if k.isRoot(c) {
-			return "trusted-certificate-before-the-end"
-		}
+	if n > 1 && k.isRoot(k.chain[0]) {
+		return "leaf-is-trusted-with-extra-certificates"
 	}
 	inPool := map[int]bool{}
 	for _, r := range k.roots {
@@ -561,7 +572,10 @@ func (e *c02Env) eval(k *c02Case, labels []string, o c02Opts, endpoint int) bool
 		case !kindOK:
 			out.Count("class:rejected-kind-or-poison")
 		default:
-			if sc := k.sideConditions(); sc != "" {
+			if sc := k.sideConditions(); sc != "" || !k.admissibleMode(true) {
+				if sc == "" {
+					sc = "issuing-root-is-submitted"
+				}
 				out.Count("obs:valid-path-rejected:" + sc) // where the code's search is incomplete by construction
 			} else {
 				out.Fail(key, "rejected although the chain is a valid linear path to the pool, the filters hold and every side condition of admit_complete_partial holds: "+err.Error())
@@ -694,7 +708,7 @@ func c02Leaf(r *verifkit.Rand, w *vWorld, tag string) *vCert {
 	case x < 17:
 		sp.poison = vPoisonOK
 	default:
-		sp.poison = vPoisonNonCritical + r.Intn(4)
+		sp.poison = vPoisonNonCritical + r.Intn(vPoisonKinds-vPoisonNonCritical)
 	}
 	if r.Intn(7) == 0 {
 		sp.isCA, sp.keyUsage = true, vCAUsage
@@ -829,7 +843,23 @@ func c02Submission(r *verifkit.Rand, w *vWorld, tag string) c02Sub {
 				break
 			}
 		}
-		if done {
+		if done && r.Bool() {
+			// the cross-certificate itself is trusted (and the self-signed version of that root is not): the chain
+			// passes through a trusted certificate and may go on to its trusted issuer
+			var x *vCert
+			for _, c := range path {
+				if c != nil && w.crossOf[c] != nil {
+					x = c
+				}
+			}
+			s.pool = []*vCert{x, x.issuer}
+			for _, o := range w.roots {
+				if o != root && o != x.issuer {
+					s.pool = append(s.pool, o)
+				}
+			}
+			s.mode = "cross-certificate-trusted"
+		} else if done {
 			s.mode += "cross-signed"
 		} else {
 			s.mode += "plain"
@@ -954,8 +984,8 @@ func c02Endpoint(r *verifkit.Rand, k *c02Case) int {
 	ep := r.Intn(3)
 	if len(k.chain) > 0 && k.chain[0] >= 0 && r.Intn(6) > 0 { // mostly the matching endpoint
 		ep = 1
-		if k.abs[k.chain[0]].poison == "p11" {
-			ep = 2
+		if pz := k.abs[k.chain[0]].poison; pz == "p11" || (pz != "a" && r.Bool()) {
+			ep = 2 // a malformed poison extension goes to either endpoint
 		}
 	}
 	return ep
@@ -1011,6 +1041,8 @@ func TestVerifC02(t *testing.T) {
 		}
 	}
 	c02Budget(e)
+	c02PassThrough(e)
+	c02PoisonFixed(e)
 	c02Fixed(e)
 	c02Diamond(e)
 	c02Empty(e)
@@ -1085,6 +1117,89 @@ func c02Diamond(e *c02Env) {
 			e.eval(k, labels, neutral, 1)
 			e.evalVerify(k, labels)
 			e.out.Count("mode:diamond")
+		}
+	}
+}
+
+// c02PassThrough: a valid in-order chain that passes through a directly trusted, non-self-signed certificate and
+// continues to that certificate's own trusted issuer is admitted as submitted (the side conditions of
+// admit_complete_partial allow every submitted certificate but a non-final leaf to be trusted).
+func c02PassThrough(e *c02Env) {
+	keys := vKeys()
+	r := e.r
+	neutral := c02Opts{now: time.Date(2030, 1, 1, 0, 0, 0, 0, time.UTC)}
+	ca := func(cn string, issuer *vCert) *vCert {
+		return vIssue(vSpec{cn: cn, key: keys[r.Intn(len(keys))], issuer: issuer, isCA: true, keyUsage: vCAUsage})
+	}
+	run := func(what string, pool []*vCert, chain []*vCert) {
+		var ders [][]byte
+		var labels []string
+		for _, c := range chain {
+			ders = append(ders, c.der)
+			labels = append(labels, c.label)
+		}
+		k := c02NewCase(pool, ders)
+		ok := e.eval(k, labels, neutral, 1)
+		e.evalVerify(k, labels)
+		e.out.Count("mode:pass-through-" + what)
+		if !ok {
+			e.out.Fail("pass-through: "+what+" chain="+strings.Join(labels, ","), "a valid in-order chain through a trusted certificate was rejected")
+		}
+	}
+	for round := 0; round < verifkit.N(2, 12); round++ {
+		tag := fmt.Sprintf("pt%d ", round)
+		rt := ca(tag+"R", nil)
+		t := ca(tag+"T", rt)
+		l := vIssue(vSpec{cn: tag + "L", key: keys[r.Intn(len(keys))], issuer: t, keyUsage: stdx509.KeyUsageDigitalSignature})
+		for _, c := range [][]*vCert{{l}, {l, t}, {l, t, rt}} {
+			run("trusted-intermediate", []*vCert{rt, t}, c)
+		}
+		// deeper: only the middle intermediate is trusted besides the root
+		t1 := ca(tag+"T1", nil)
+		r2 := ca(tag+"R2", nil)
+		t3 := ca(tag+"T3", r2)
+		t2 := ca(tag+"T2", t3)
+		t1 = ca(tag+"T1", t2)
+		l2 := vIssue(vSpec{cn: tag + "L2", key: keys[r.Intn(len(keys))], issuer: t1, keyUsage: stdx509.KeyUsageDigitalSignature})
+		for _, c := range [][]*vCert{{l2, t1, t2}, {l2, t1, t2, t3}, {l2, t1, t2, t3, r2}} {
+			run("trusted-middle", []*vCert{r2, t2}, c)
+		}
+		// cross-certificate in the pool: root2's name and key certified by root1; root2's self-signed certificate is not trusted
+		r1 := ca(tag+"R1", nil)
+		root2 := ca(tag+"Root2", nil)
+		r2x := vIssue(vSpec{rawSubj: root2.c.RawSubject, cn: "x", key: root2.key, issuer: r1, isCA: true, keyUsage: vCAUsage, ski: root2.c.SubjectKeyId})
+		r2x.label = tag + "R2x"
+		i := ca(tag+"I", root2)
+		l3 := vIssue(vSpec{cn: tag + "L3", key: keys[r.Intn(len(keys))], issuer: i, keyUsage: stdx509.KeyUsageDigitalSignature})
+		for _, c := range [][]*vCert{{l3, i}, {l3, i, r2x}, {l3, i, r2x, r1}} {
+			run("cross-certificate", []*vCert{r1, r2x}, c)
+		}
+	}
+}
+
+// c02PoisonFixed: an otherwise valid chain whose leaf carries each poison-extension variant, on each endpoint:
+// only the critical extension with value 05 00 makes a precertificate; every other variant is rejected on both.
+func c02PoisonFixed(e *c02Env) {
+	keys := vKeys()
+	neutral := c02Opts{now: time.Date(2030, 1, 1, 0, 0, 0, 0, time.UTC)}
+	root := vIssue(vSpec{cn: "poison root", key: keys[3], isCA: true, keyUsage: vCAUsage})
+	inter := vIssue(vSpec{cn: "poison inter", key: keys[4], issuer: root, isCA: true, keyUsage: vCAUsage})
+	for pz := vPoisonNone; pz < vPoisonKinds; pz++ {
+		for _, issuer := range []*vCert{root, inter} {
+			leaf := vIssue(vSpec{cn: fmt.Sprintf("poison leaf %d", pz), key: keys[5], issuer: issuer, keyUsage: stdx509.KeyUsageDigitalSignature, poison: pz})
+			ders := [][]byte{leaf.der}
+			if issuer == inter {
+				ders = append(ders, inter.der)
+			}
+			k := c02NewCase([]*vCert{root}, ders)
+			for ep := 1; ep <= 2; ep++ {
+				got := e.eval(k, []string{fmt.Sprintf("leaf with poison variant %d", pz), issuer.label}, neutral, ep)
+				want := (pz == vPoisonNone && ep == 1) || (pz == vPoisonOK && ep == 2)
+				if got != want {
+					e.out.Fail(fmt.Sprintf("poison variant %d (%s) on endpoint %d", pz, k.abs[k.chain[0]].poison, ep), fmt.Sprintf("admitted=%v, want %v", got, want))
+				}
+				e.out.Count("mode:poison-variant")
+			}
 		}
 	}
 }
